@@ -160,6 +160,15 @@ type FreshInLoop struct {
 	Line  int
 }
 
+// ForbidGlobal: "forbidglobal PKG.NAME": no function of the repository refers
+// to that package-level variable of a library.
+type ForbidGlobal struct {
+	Props []string
+	Name  string
+	File  string
+	Line  int
+}
+
 type MapRangeRule struct {
 	Props  []string
 	Func   string // function key
@@ -180,6 +189,7 @@ type Contracts struct {
 	ConstFormats []*ConstFormat
 	FieldsCompared []*FieldsCompared
 	FreshInLoops []*FreshInLoop
+	ForbidGlobals []*ForbidGlobal
 	Funcs  map[string]*FuncContract // key: pkgpath + "::" + relname, or absolute name for externals
 	Ghosts map[string]*GhostVar
 	Specs  map[string]*SpecFunc
@@ -190,7 +200,7 @@ type Contracts struct {
 }
 
 var clauseRe = regexp.MustCompile(`^(requires|hypothesis|ensures|xensures|invariant|decreases|assert|assume|modifies|trusted|freshresult|pure|inline|noinline|nullable|maypanic|nopanic|let|set|init|specialize|assign)\b(\[[A-Za-z0-9, ]*\])?\s*(.*)$`)
-var topRe = regexp.MustCompile(`^(func|ghost|spec|axiom|lemma|iface|only|maprange|globalconst|emitonsuccess|constformat|fieldscompared|freshinloop)\b(\[[A-Za-z0-9, ]*\])?\s*(.*)$`)
+var topRe = regexp.MustCompile(`^(func|ghost|spec|axiom|lemma|iface|only|maprange|globalconst|emitonsuccess|constformat|fieldscompared|freshinloop|forbidglobal)\b(\[[A-Za-z0-9, ]*\])?\s*(.*)$`)
 
 func parseProps(s string) []string {
 	s = strings.Trim(s, "[]")
@@ -377,6 +387,12 @@ func (cs *Contracts) parseFile(fname, pkg, prefix string) {
 					r.Allowed = append(r.Allowed, a)
 				}
 				cs.Onlys = append(cs.Onlys, r)
+			case "forbidglobal":
+				if strings.TrimSpace(rest) == "" {
+					cs.errf(fname, l.line, "forbidglobal needs PKG.NAME")
+					continue
+				}
+				cs.ForbidGlobals = append(cs.ForbidGlobals, &ForbidGlobal{Props: props, Name: strings.TrimSpace(rest), File: fname, Line: l.line})
 			case "freshinloop":
 				f := strings.Fields(rest)
 				n := 0
